@@ -649,6 +649,32 @@ Proof.
       destruct (Nat.eqb_spec f src); [subst; congruence | exact KF].
 Qed.
 
+(* ------------------------------------------------------------------ compact *)
+Lemma compact_get_lt s i : i < next s -> get (compact s) i = get s i.
+Proof.
+  intros L. unfold compact, get. cbn [objs].
+  rewrite (nth_indep _ dead_obj (objs s 0)) by (rewrite map_length, seq_length; exact L).
+  rewrite map_nth, seq_nth by exact L. reflexivity.
+Qed.
+
+Lemma compact_get s i : Inv s -> get (compact s) i = get s i.
+Proof.
+  intros H. destruct (Nat.lt_ge_cases i (next s)) as [L | L]; [apply compact_get_lt; exact L|].
+  rewrite (i_fresh s H i L). unfold compact, get. cbn [objs].
+  apply nth_overflow. rewrite map_length, seq_length. exact L.
+Qed.
+
+Lemma compact_inv s : Inv s -> Inv (compact s).
+Proof.
+  intros H. pose proof (compact_get s) as E.
+  assert (N : next (compact s) = next s) by reflexivity.
+  destruct H. constructor; intros; rewrite ?N in *;
+    repeat match goal with
+           | X : context [get (compact s) ?i] |- _ => rewrite (E i) in X by (constructor; assumption)
+           end;
+    rewrite ?E by (constructor; assumption); eauto.
+Qed.
+
 (* ------------------------------------------------------------------ every operation *)
 Lemma addr_free_alloc s a kd a' r h ho : addr_free s a = true -> a' <> a ->
   addr_free (alloc s (fresh kd a' r h ho)) a = true.
@@ -792,7 +818,7 @@ Proof.
     destruct (k (get s h)) eqn:K; try exact H.
     apply hold_inv; [exact H|]. apply (i_refs s H h). unfold refs_of. rewrite A, K. left. reflexivity.
   - apply collect_inv. exact H.
-  - apply collect_inv. exact H.
+  - apply compact_inv, collect_inv. exact H.
 Qed.
 
 Lemma run_inv_from ops : forall s, Inv s -> Inv (fold_left step ops s).
@@ -862,6 +888,11 @@ Qed.
 Lemma mono_collect s G i : mono (get s i) (get (collect s G) i).
 Proof. unfold collect. destruct (garbage s G); [apply mono_fold | apply mono_refl]. Qed.
 
+Lemma next_compact s : next (compact s) = next s.
+Proof. reflexivity. Qed.
+Lemma next_collect s G : next (collect s G) = next s.
+Proof. unfold collect. destruct (garbage s G); [apply next_fold | reflexivity]. Qed.
+
 Lemma next_step_le s o : next s <= next (step s o).
 Proof.
   destruct o; cbn [step];
@@ -870,7 +901,7 @@ Proof.
            | |- context [match k ?x with _ => _ end] => destruct (k x)
            | |- context [match ?y with Some _ => _ | None => _ end] => destruct y
            end;
-    rewrite ?next_alloc, ?next_set, ?release_view_next; unfold hold, finalize_at, collect;
+    rewrite ?next_compact, ?next_collect, ?next_alloc, ?next_set, ?release_view_next; unfold hold, finalize_at, collect;
     rewrite ?next_alloc, ?next_set, ?release_view_next;
     repeat match goal with |- context [if ?c then _ else _] => destruct c end;
     rewrite ?next_fold; lia.
@@ -884,6 +915,7 @@ Proof.
            | |- context [match k ?x with _ => _ end] => destruct (k x)
            end;
     try apply mono_refl; try apply mono_collect;
+    try (rewrite compact_get_lt by (rewrite next_collect; exact L); apply mono_collect);
     unfold hold, finalize_at;
     try (apply mono_alloc; assumption);
     try (apply mono_set; first [apply mono_with_roots | apply mono_with_k | apply mono_cancel
